@@ -93,15 +93,34 @@ def run(eng: Engine, ck: Check):
               construct='reader loop handles escape set')
         if t is not None:
             for h in t.handlers:
-                leaving = [n for n in walk_local(h) if isinstance(n, (ast.Return, ast.Break, ast.Raise))]
-                ck.ob('R-C02-ESCAPE', rl, h, f'reader loop: `except {", ".join(handler_type_names(h))}` logs and continues with the next frame', not leaving,
+                names_ = handler_type_names(h)
+                # after a READ error the connection is closed (checked on _read above: every handler disconnects before it raises
+                # ConnectionReadError), so leaving the loop there is the same as going round once more; after a DECODE error it is not
+                leaving = [n for n in walk_local(h) if isinstance(n, (ast.Return, ast.Break, ast.Raise))] if names_ != ['ConnectionReadError'] else \
+                    [n for n in walk_local(h) if isinstance(n, ast.Raise)]
+                ck.ob('R-C02-ESCAPE', rl, h, f'reader loop: `except {", ".join(names_)}` logs and continues with the next frame', not leaving,
                       f'handler leaves the loop at line {leaving[0].lineno}: one bad frame stops delivery of all later frames' if leaving else '',
-                      construct=f'reader loop except {",".join(handler_type_names(h))} continues')
+                      construct=f'reader loop except {",".join(names_)} continues')
+            # a frame that failed to read or decode delivers NOTHING: no path from an except arm reaches the dispatch without a new read
+            crl = eng.cfg(rl)
+            disp_calls = [y for y in calls_in(rl.node) if call_name(y) == 'on_message_received' or
+                          (isinstance(y.func, ast.Attribute) and unparse(y.func.value) == 'self' and call_name(y) in
+                           {m_.name for m_ in eng.cls('DataConnection', CONN).methods.values() if m_ is not rl and calls_on(m_.node, 'on_message_received')})]
+            dn_ = [n for y in disp_calls for n in crl.nodes_for(y)]
+            rn_ = [n for n in crl.nodes_for(x)]
+            hs_ = [n for n in crl.nodes if n.kind == 'handler' and any(n.ast is h for h in t.handlers)]
+            p_ = crl.find_path(hs_, lambda n: n in dn_, avoid=lambda n: n in rn_) if hs_ and dn_ else None
+            ck.ob('R-C02-ESCAPE', rl, t, 'a frame that could not be read or decoded delivers nothing: the dispatch is not reachable from an except arm of the read '
+                  'without a new read in between', bool(dn_) and p_ is None,
+                  f'the callback is reached from the handler via lines {crl.describe_path(p_, rl.where) if p_ else ""}: the previous message is delivered again '
+                  '(or the name is unbound and the reader task dies)', construct='reader loop dispatch only after a successful read')
     ck.ob('R-C02-ESCAPE', rl, rl.node, 'no exception can leave the reader loop', not esc.of(rl), f'escape set {sorted(esc.of(rl))}', construct='reader loop escape set')
     loops = [n for n in walk_local(rl.node) if isinstance(n, ast.While)]
     ok = len(loops) == 1 and unparse(loops[0].test) in ('not self._is_closing',)
     ck.ob('R-C02-ESCAPE', rl, rl.node, 'the reader loop runs until the connection is closing', ok, '', construct='reader loop condition')
     for r in [n for n in walk_local(rl.node) if isinstance(n, (ast.Return, ast.Break))]:
+        if any(isinstance(a_, ast.ExceptHandler) and handler_type_names(a_) == ['ConnectionReadError'] for a_ in ancestors(r)):
+            continue        # after a read error the connection has been closed by _read (checked above)
         gs = [(unparse(e), pol) for e, pol, _ in eng.guards_at(rl, r)]
         # the local that receives the result of receive_message_object()
         got = {unparse(n_.targets[0]) for n_ in walk_local(rl.node) if isinstance(n_, ast.Assign) and any(call_name(x_) == 'receive_message_object' for x_ in ast.walk(n_.value))}
